@@ -3,6 +3,10 @@
 property and a scratch worktree, nothing from /verif's machinery."""
 import json,sys
 pid=sys.argv[1]
+known=json.load(open('/verif/scripts/known_mutations.json')).get(pid,[])
+avoid=""
+if known:
+    avoid="\n## Already known - do NOT repeat\nEarlier rounds already produced mutations at these sites/mechanisms. Do not reuse them or close variants; find DIFFERENT functions, clauses of the property, or mechanisms (prefer clauses of the statement that the list below does not touch):\n"+"\n".join("- "+k for k in known)+"\n"
 wt=sys.argv[2] if len(sys.argv)>2 else f"/tmp/wt-{pid}"
 for l in open('/verif/properties.jsonl'):
     p=json.loads(l)
@@ -23,6 +27,7 @@ Mechanisms meant to make it hold:
 {mech}
 Observable at: {', '.join(a.get('observe_at') or [])}
 
+{avoid}
 ## What to produce
 Two different mutations (A and B) using different mechanisms/sites (not two variants of the same edit). Each must:
 1. be a small, realistic edit a developer could plausibly make (a refactor slip, a dropped check, a wrong variable/key, a reordered statement, an off-by-one, a lock dropped at one site, an error no longer propagated, ...) — NOT a blatant sabotage like deleting a whole function body;
